@@ -1,5 +1,5 @@
 #!/bin/bash
 # usage: runon.sh <variant dir with patch.diff> <CHECK...> : full report of the checks on a scratch copy of /repo with the patch applied
 p=$(realpath "$1")/patch.diff
-d=$(mktemp -d /tmp/sa-runon-XXXX); cp -r /repo/lib /repo/bin $d/; (cd $d && git apply --exclude='*/tests/*' "$p") || exit 3
+d=$(mktemp -d /tmp/sa-runon-XXXX); cp -r /repo/lib /repo/bin $d/; (cd $d && git apply --exclude='*/tests/*' --exclude='conf/*' "$p") || exit 3
 shift; for c in "$@"; do (cd /verif && python3 -m sa check $c --root $d); done; rm -rf $d
